@@ -407,7 +407,7 @@ impl Prop for C03 {
         Scenario::Session(gen_session(&mut rng, false, false))
     }
     fn exec(&self, sc: &Scenario, ctr: &mut Ctr) -> Result<Exec, String> {
-        let Scenario::Session(s) = sc;
+        let Scenario::Session(s) = sc else { return Ok(super::skip("not_a_session")) };
         let c = match prepare(s, ctr, false)? {
             Ok(c) => c,
             Err(e) => return Ok(e),
@@ -479,7 +479,7 @@ impl Prop for C01 {
         Scenario::Session(gen_session(&mut rng, true, false))
     }
     fn exec(&self, sc: &Scenario, ctr: &mut Ctr) -> Result<Exec, String> {
-        let Scenario::Session(s) = sc;
+        let Scenario::Session(s) = sc else { return Ok(super::skip("not_a_session")) };
         let c = match prepare(s, ctr, true)? {
             Ok(c) => c,
             Err(e) => return Ok(e),
@@ -553,7 +553,7 @@ impl Prop for C09 {
         Scenario::Session(gen_session(&mut rng, false, false))
     }
     fn exec(&self, sc: &Scenario, ctr: &mut Ctr) -> Result<Exec, String> {
-        let Scenario::Session(s) = sc;
+        let Scenario::Session(s) = sc else { return Ok(super::skip("not_a_session")) };
         if s.opts.len() < 2 || s.opts[0].by_name || !s.opts[1].by_name {
             return Ok(skip("needs_both_sort_options"));
         }
@@ -673,7 +673,7 @@ impl Prop for C06 {
         Scenario::Session(gen_session(&mut rng, false, true))
     }
     fn exec(&self, sc: &Scenario, ctr: &mut Ctr) -> Result<Exec, String> {
-        let Scenario::Session(s) = sc;
+        let Scenario::Session(s) = sc else { return Ok(super::skip("not_a_session")) };
         let c = match prepare(s, ctr, false)? {
             Ok(c) => c,
             Err(e) => return Ok(e),
